@@ -1,4 +1,4 @@
-from typing import Optional
+from typing import Any, Optional
 from conductor.utils.output_handler import OutputHandler
 
 
@@ -16,6 +16,11 @@ class OperationExecutionHandle:
         self.stderr: Optional[OutputHandler] = None
         self.returncode: Optional[int] = None
         self.slot: Optional[int] = None
+        # The `subprocess.Popen` object (if any). It must stay referenced until
+        # the child has been reaped by the SIGCHLD handler: a dropped `Popen`
+        # is polled by CPython itself (`Popen.__del__` / `subprocess._cleanup()`),
+        # which can reap the child first and lose its exit.
+        self.process: Any = None
 
     @classmethod
     def from_async_process(cls, pid: int):
